@@ -251,28 +251,35 @@ def run_project(job: T.Tuple[int, str, str, T.List[int], int]) -> dict:
                 before[p] = (st.st_mtime_ns, st.st_ino, hashlib.sha256(f.read()).hexdigest())
         except OSError:
             pass
-    time.sleep(0.02)
-    r1 = runner.meson(['setup', '--reconfigure', b, src], cwd=src, monitors=[rid_monitor])
-    if r1.rc != 0:
-        problem('reconfigure-nochange/failed', tail=(r1.out + r1.err)[-500:])
-    else:
+    def umask_monitor(mask: int) -> T.Callable:
+        def mon(rec: T.Callable[[dict], None]) -> None:
+            os.umask(mask)
+        return mon
+
+    # twice: under the umask of the original configuration, then under a different one (another session / sudo / CI)
+    for label, mask in (('reconfigure-nochange', 0o022), ('reconfigure-nochange-other-umask', 0o027)):
+        time.sleep(0.02)
+        r1 = runner.meson(['setup', '--reconfigure', b, src], cwd=src, monitors=[rid_monitor, umask_monitor(mask)])
+        if r1.rc != 0:
+            problem(f'{label}/failed', tail=(r1.out + r1.err)[-500:])
+            continue
         for p, (mt, ino, dg) in before.items():
             try:
                 st = os.stat(p)
                 with open(p, 'rb') as f:
                     dg2 = hashlib.sha256(f.read()).hexdigest()
             except OSError:
-                problem('reconfigure-nochange/output-vanished', file=os.path.relpath(p, b))
+                problem(f'{label}/output-vanished', file=os.path.relpath(p, b))
                 continue
             if p.endswith('build.ninja'):
                 if dg2 != dg:
-                    problem('reconfigure-nochange/build.ninja-content-changed', file='build.ninja')
+                    problem(f'{label}/build.ninja-content-changed', file='build.ninja')
                 continue
             res['mtime_checked'] += 1
             if dg2 == dg and (st.st_mtime_ns != mt or st.st_ino != ino):
-                problem('reconfigure-nochange/unchanged-output-touched', file=os.path.relpath(p, b),
+                problem(f'{label}/unchanged-output-touched', file=os.path.relpath(p, b),
                         mtime=[mt, st.st_mtime_ns], inode=[ino, st.st_ino])
-        compare('reconfigure-nochange', {'history': ['setup', 'setup --reconfigure']})
+        compare(label, {'history': ['setup', 'setup --reconfigure'], 'umask': oct(mask)})
 
     # ---- cold runs under perturbed nondeterminism sources ---------------------------------------
     for hs in hashseeds:
@@ -309,13 +316,26 @@ def run_project(job: T.Tuple[int, str, str, T.List[int], int]) -> dict:
         ('configure-there-and-back', [['setup', b, src] + OPTS, ['configure', b, '-Dlvl=z', '-Dname=w'],
                                       ['configure', b, '-Dlvl=y', '-Dname=v'], ['setup', '--reconfigure', b, src]]),
         ('wipe', [['setup', b, src] + OPTS, ['setup', '--wipe', b, src]]),
+        # the option file grows between two configurations: an option is inserted BEFORE existing ones
+        ('option-inserted-then-reconfigure', [['@old-options'], ['setup', b, src, '-Dlvl=y', '-Dspx:sval=cmd'], ['@new-options'],
+                                              ['setup', '--reconfigure', b, src], ['configure', b, '-Dname=v'],
+                                              ['setup', '--reconfigure', b, src]]),
     ]
     if tier == 'quick':
-        hists = [hists[rng.randrange(len(hists))], hists[2]] if rng.random() < 0.5 else hists[:2]
+        hists = [hists[rng.randrange(3)], hists[3]]
     for name, cmds in hists:
         fresh()
         ok = True
+        all_files = gen_c06.gen_project(pseed)
         for argv in cmds:
+            if argv == ['@old-options']:
+                # drop every option declared before the last one that the build files do not read at configure time
+                lines = all_files['meson.options'].splitlines(True)
+                runner.write_tree(src, {'meson.options': ''.join(l for l in lines if "option('name'" not in l)})
+                continue
+            if argv == ['@new-options']:
+                runner.write_tree(src, {'meson.options': all_files['meson.options']})
+                continue
             rr = runner.meson(argv, cwd=src)
             if rr.rc != 0:
                 problem(f'history:{name}/command-failed', argv=argv[:3], tail=(rr.out + rr.err)[-500:])
@@ -324,6 +344,7 @@ def run_project(job: T.Tuple[int, str, str, T.List[int], int]) -> dict:
         if ok:
             res['histories'] += 1
             compare(f'history:{name}', {'history': [' '.join(a.replace(base, '') for a in c) for c in cmds]})
+        runner.write_tree(src, {'meson.options': all_files['meson.options']})
     shutil.rmtree(base, ignore_errors=True)
     return res
 
